@@ -17,7 +17,24 @@ outs = []
 for text in texts:
     try:
         c = parse_jaqal_string(text, autoload_pulses='usepulses' in text, import_path=pulses)
-        outs.append({'cls': 'ok', 'pos': 'none', 'digest': hashlib.sha1(repr(c).encode()).hexdigest()[:12]})
+        # what the process does with an accepted text: the circuit, the text generated from it, and (when the program
+        # has prepare / measure sections) its execution - all of it must be the same whatever was processed before
+        dig = hashlib.sha1(repr(c).encode()).hexdigest()[:12]
+        try:
+            from jaqalpaq.generator import generate_jaqal_program
+            dig += ' gen:' + hashlib.sha1(generate_jaqal_program(c).encode()).hexdigest()[:12]
+        except BaseException as e:      # noqa
+            dig += ' gen:' + type(e).__name__
+        if 'prepare_all' in text:
+            try:
+                import numpy
+                from jaqalpaq.run import run_jaqal_circuit
+                numpy.random.seed(7)
+                r = run_jaqal_circuit(c)
+                dig += ' run:%s' % [(x.subcircuit.index, x.as_int) for x in r.readouts]
+            except BaseException as e:      # noqa
+                dig += ' run:' + type(e).__name__
+        outs.append({'cls': 'ok', 'pos': 'none', 'digest': dig})
     except JaqalParseError as e:
         outs.append({'cls': 'parse_error', 'pos': '%s:%s' % (e.line, e.column), 'digest': ''})
     except JaqalError as e:
